@@ -159,6 +159,10 @@ func (o *Object) Write(rootGoitPath string) error {
 func (o *Object) ReflectToWorkingTree(rootGoitPath, path string) error {
 	rootDir := filepath.Dir(rootGoitPath)
 	filePath := filepath.Join(rootDir, path)
+	// the directory of the file may have been removed from the working tree
+	if err := os.MkdirAll(filepath.Dir(filePath), os.ModePerm); err != nil {
+		return fmt.Errorf("fail to make directory for %s: %w", filePath, err)
+	}
 	f, err := os.Create(filePath)
 	if err != nil {
 		return fmt.Errorf("fail to create file %s: %w", filePath, err)
